@@ -57,6 +57,19 @@ impl Tri {
 	}
 }
 
+/// `s = fl(a + b)` carries no rounding (TwoSum error term zero) and is representable in `ValueType`: every IEEE
+/// implementation that forms this sum or difference of two exactly known operands with one operation returns exactly
+/// `s`, so the tracked result keeps `e = 0` and comparisons on it (ties of price moves on a tick grid) stay decidable.
+#[inline]
+pub fn sum_is_exact(a: f64, b: f64, s: f64) -> bool {
+	if !s.is_finite() {
+		return false;
+	}
+	let bb = s - a;
+	let err = (a - (s - bb)) + (b - bb);
+	err == 0.0 && (s as ValueType) as f64 == s
+}
+
 impl T {
 	pub const UND: T = T {
 		v: f64::NAN,
@@ -90,11 +103,17 @@ impl T {
 	#[inline]
 	pub fn add(self, o: T) -> T {
 		let v = self.v + o.v;
+		if self.e == 0.0 && o.e == 0.0 && sum_is_exact(self.v, o.v, v) {
+			return T::new(v, 0.0);
+		}
 		T::new(v, self.e + o.e + U * v.abs())
 	}
 	#[inline]
 	pub fn sub(self, o: T) -> T {
 		let v = self.v - o.v;
+		if self.e == 0.0 && o.e == 0.0 && sum_is_exact(self.v, -o.v, v) {
+			return T::new(v, 0.0);
+		}
 		T::new(v, self.e + o.e + U * v.abs())
 	}
 	#[inline]
